@@ -267,12 +267,12 @@ class Rewriter:
                     k = j + 1
                     continue
             # R5: std::cmp::min(a, b) -> cmp_min(a, b)
-            if is_id(t, 'std') and text_of(toks[k:k + 12]).replace(' ', '').startswith('std::cmp::min('):
+            if is_id(t, 'std') and (text_of(toks[k:k + 12]).replace(' ', '').startswith('std::cmp::min(') or text_of(toks[k:k + 12]).replace(' ', '').startswith('std::cmp::max(')):
                 j = k
-                while not is_id(toks[j], 'min'):
+                while not (is_id(toks[j], 'min') or is_id(toks[j], 'max')):
                     j += 1
-                out.append(T('ident', 'cmp_min', t.start))
-                self.rec('R5', 'std::cmp::min', 'cmp_min')
+                out.append(T('ident', 'cmp_' + toks[j].text, t.start))
+                self.rec('R5', 'std::cmp::' + toks[j].text, 'cmp_' + toks[j].text)
                 k = j + 1
                 continue
             # R16: strip in-crate / mantra-dex-std module paths (everything is one flat namespace)
